@@ -16,10 +16,11 @@ import MellonDriver.TimeArgs
 import MellonDriver.TimeNN
 import MellonDriver.Validate
 import MellonDriver.Staged
+import MellonDriver.Deriv
 open Mellon Drv
 
 /-- All handlers, tried in order. -/
-def handlers : List Handler := [handleKernel, handleCond, handleDecomp, handleRank, handleParams, handleInference, handleOptimize, handleSerial, handlePersist, handleTimeArgs, handleTimeNN, handleValidate, handleStaged]
+def handlers : List Handler := [handleKernel, handleCond, handleDecomp, handleRank, handleParams, handleInference, handleOptimize, handleSerial, handlePersist, handleTimeArgs, handleTimeNN, handleValidate, handleStaged, handleDeriv]
 
 def handle : P String := do
   let op ← tok
